@@ -149,6 +149,23 @@ def _discharge(ob, timeout_ms, unfolder=None, lemmas=(), twin_lemmas=()):
         st.add(z3.Not(ob.goal))
         if st.check() == z3.unsat:
             return "proved", f"z3({stage} hypotheses)", (time.time() - t0) * 1000, None
+    # witness stage: existential hypotheses are skolemised and the universal conjuncts of the negated goal are instantiated at
+    # the skolem constants (sound: instances of a universally quantified assumption); decides goals of the form
+    # "exists k. P(k) or Q(k)" from a hypothesis "exists k. P(k)" whose index terms are not usable as triggers
+    try:
+        hyps, insts = _witness_instances(ob.pc, ob.goal)
+        if insts:
+            for mbqi in (False, True):
+                st = z3.Solver()
+                st.set("timeout", min(timeout_ms, 4000))
+                st.set("smt.mbqi", mbqi)
+                for p in hyps + insts:
+                    st.add(p)
+                st.add(z3.Not(ob.goal))
+                if st.check() == z3.unsat:
+                    return "proved", "z3(skolem witnesses)", (time.time() - t0) * 1000, None
+    except z3.Z3Exception:
+        pass
     # final stage: the full VC; e-matching only first (the VCs are written for triggers), then with MBQI
     s.set("smt.mbqi", False)
     s.add(z3.Not(ob.goal))
@@ -176,6 +193,48 @@ def _discharge(ob, timeout_ms, unfolder=None, lemmas=(), twin_lemmas=()):
             model = {}
         return "refuted", backend, ms, model
     return "unknown", backend, ms, {"reason": s.reason_unknown()}
+
+
+def _witness_instances(pc, goal, limit=24):
+    consts = []
+
+    def skol(p, depth=0):
+        if depth > 6:
+            return p
+        if z3.is_quantifier(p) and p.is_exists():
+            vs = [z3.FreshConst(p.var_sort(i), "sk") for i in range(p.num_vars())]
+            consts.extend(vs)
+            return skol(z3.substitute_vars(p.body(), *reversed(vs)), depth + 1)
+        if z3.is_not(p) and z3.is_quantifier(p.arg(0)) and p.arg(0).is_forall():
+            q = p.arg(0)
+            vs = [z3.FreshConst(q.var_sort(i), "sk") for i in range(q.num_vars())]
+            consts.extend(vs)
+            return skol(z3.Not(z3.substitute_vars(q.body(), *reversed(vs))), depth + 1)
+        if z3.is_and(p):
+            return z3.And(*[skol(c, depth + 1) for c in p.children()])
+        return p
+    hyps = [skol(p) for p in pc]
+    if not consts:
+        return hyps, []
+    insts = []
+
+    def universals(e, positive, depth=0):
+        if depth > 8 or len(insts) >= limit:
+            return
+        if z3.is_not(e):
+            universals(e.arg(0), not positive, depth + 1)
+        elif (z3.is_and(e) and positive) or (z3.is_or(e) and not positive):
+            for c in e.children():
+                universals(c, positive, depth + 1)
+        elif z3.is_quantifier(e) and not e.is_lambda() and ((e.is_forall() and positive) or (e.is_exists() and not positive)):
+            if e.num_vars() != 1:
+                return
+            for c in consts:
+                if c.sort() == e.var_sort(0) and len(insts) < limit:
+                    b = z3.substitute_vars(e.body(), c)
+                    insts.append(b if positive else z3.Not(b))
+    universals(z3.Not(goal), True)
+    return hyps, insts
 
 
 def _has_quant(e):
@@ -223,9 +282,21 @@ def verify_one(task):
             except Exception:
                 pass
         rec["lemmas"] = [getattr(b, "__name__", "lemma") for b in getattr(reg, "lemmas", [])] if lemmas else []
+        undischarged = {}
+        budget = float(os.environ.get("PYVC_FUNCTION_BUDGET_S", "600"))
         for ob in obs:
+            # a changed function typically breaks one clause on many paths: after three undischarged instances of the same
+            # named obligation the remaining instances are not attempted (they stay 'unknown' = not proved); likewise once
+            # the function's time budget is used up. Neither happens on a tree where everything is discharged.
+            if not ob.expect_sat and (undischarged.get(ob.name, 0) >= 3 or time.time() - t0 > budget):
+                why = "skipped: same-named obligation already undischarged 3x" if undischarged.get(ob.name, 0) >= 3 else "skipped: function time budget used up"
+                rec["obligations"].append({"name": ob.name, "kind": ob.kind, "line": ob.line, "tags": list(ob.tags),
+                                           "result": "unknown", "backend": why, "ms": 0.0, "model": {"reason": why}})
+                continue
             res, backend, ms, model = _discharge(ob, timeout_ms, unf, lemmas if not ob.expect_sat else (),
                                                  twin_lemmas if not ob.expect_sat else ())
+            if res not in ("proved", "sat-ok"):
+                undischarged[ob.name] = undischarged.get(ob.name, 0) + 1
             rec["obligations"].append({"name": ob.name, "kind": ob.kind, "line": ob.line, "tags": list(ob.tags),
                                        "result": res, "backend": backend, "ms": round(ms, 1), "model": model})
         if not [o for o in obs if o.kind != "pre-sat"]:
